@@ -1,6 +1,6 @@
 (** Examples for C05/C06: the models compute, and the hypotheses of the theorems are satisfiable. *)
 From RB Require Import Base.Prelude Sig.Types Wire.Bytes Wire.Text Wire.Value Wire.SpecEnc Names.Spec
-  Msg.Flags Msg.Utf8 Msg.Header Msg.HeaderSpec Msg.MsgSpec Msg.HeaderDecode Msg.HeaderProofs Msg.DecodeSound Msg.DecodeComplete Msg.Round Msg.Accept.
+  Msg.Flags Msg.Utf8 Msg.Header Msg.HeaderSpec Msg.MsgSpec Msg.HeaderDecode Msg.HeaderProofs Msg.DecodeSound Msg.DecodeComplete Msg.Round Msg.Accept Msg.StdMsgs.
 From RB Require Import Names.Model Names.Proofs Sig.Validator.
 
 (** a method call "M" on "/p", interface "a.b", body = one u32 (5), little endian, serial 7 *)
@@ -128,3 +128,18 @@ Proof. repeat split; reflexivity. Qed.
 (** the name bridge: a non-ASCII string is decoded to its scalar values before validation *)
 Example ex_utf8 : utf8_chars [97; 195; 169] = [97; 233].
 Proof. reflexivity. Qed.
+
+(** the standard messages with the bodies they push; the class of known finding D24 and its complement are inhabited *)
+Example ex_request_name : exists m, std_request_name [120; 46; 121] 4 = Ok m /\ m_body m = [3; 0; 0; 0; 120; 46; 121; 0; 4; 0; 0; 0] /\ m_sig m = [115; 117].
+Proof. eexists. split; [vm_compute; reflexivity|]. split; reflexivity. Qed.
+Example ex_request_name_class : KnownClass_D24 [[120; 46; 121]] = false /\ KnownClass_D24 [[120; 0; 121]] = true.
+Proof. split; reflexivity. Qed.
+Example ex_request_name_marshals : exists m hb, std_request_name [120; 46; 121] 4 = Ok m /\ marshal_msg m 9 = Ok hb.
+Proof. eexists. eexists. split; vm_compute; reflexivity. Qed.
+Example ex_unknown_method : exists m,
+  std_unknown_method_msg {| c_interface := Some [105; 46; 102]; c_member := Some [77]; c_object := Some [47; 111];
+                            c_sender := Some [58; 49; 46; 50]; c_serial := Some 12 |} = Ok m
+  /\ m_typ m = MError /\ m_reply_serial m = Some 12 /\ m_destination m = Some [58; 49; 46; 50] /\ m_sig m = [115].
+Proof. eexists. split; [vm_compute; reflexivity|]. repeat split; reflexivity. Qed.
+Example ex_add_match_panics : std_add_match [97; 0] = Panic.
+Proof. vm_compute. reflexivity. Qed.
